@@ -263,7 +263,7 @@ package mysql
 // ghost record of the last frame header read from the transport: its sequence id and payload length
 //@ ghost hdrSeq uint8
 //@ ghost hdrLen int
-//@ property C11: (*Conn).readHeaderFrom, (*Conn).readOnePacket, (*Conn).getReader, (*Conn).getWriter, (*Conn).WritePacket
+//@ property C11: (*Conn).readHeaderFrom, (*Conn).readOnePacket, (*Conn).readPacket, (*Conn).ReadEphemeralPacket, (*Conn).getReader, (*Conn).getWriter, (*Conn).WritePacket
 
 // A frame header is accepted only if its sequence id is the expected one; the expected id then advances by one (mod 256)
 // and the 24-bit little-endian payload length is returned.
@@ -326,7 +326,26 @@ package mysql
 //@   requires c != nil
 //@   ensures case advance: ret1 == nil ==> c.sequence == old(c.sequence) + 1
 //@   ensures case size:    ret1 == nil ==> len(ret0) <= 16777215
+//@   ensures case exact:   ret1 == nil ==> len(ret0) == hdrLen && (ret0 == nil || fresh(ret0))
 //@   ensures case failed:  ret1 != nil ==> ret0 == nil
+
+// reassembly: frames are consumed, in order, up to and including the first one shorter than 2^24-1 bytes; the packet is their
+// concatenation (its length is the sum of the announced lengths: every frame but the last is full), and the expected sequence id
+// has advanced by the number of frames consumed. rdFrames / rdTotal / rdLast: frames consumed by this call, their total payload
+// length, the length of the last one.
+//@ ghost rdFrames int
+//@ ghost rdTotal int
+//@ ghost rdLast int
+//@ func (*Conn).readPacket
+//@   mode bv
+//@   requires c != nil
+//@   ghost-update at entry: rdFrames = 0, rdTotal = 0, rdLast = 0
+//@   ghost-update after call readOnePacket#0: rdFrames = rdFrames + ite(ret1 == nil, 1, 0), rdTotal = rdTotal + ite(ret1 == nil, len(ret0), 0), rdLast = len(ret0)
+//@   ghost-update after call readOnePacket#1: rdFrames = rdFrames + ite(ret1 == nil, 1, 0), rdTotal = rdTotal + ite(ret1 == nil, len(ret0), 0), rdLast = len(ret0)
+//@   loop 0 invariant (data == nil || fresh(data)) && 1 <= rdFrames && rdFrames <= 1<<30 && len(data) == rdTotal && rdTotal == rdFrames * 16777215 && c.sequence == old(c.sequence) + uint8(rdFrames)
+//@   ensures case sequence: ret1 == nil ==> c.sequence == old(c.sequence) + uint8(rdFrames) && rdFrames >= 1
+//@   ensures case length:   ret1 == nil ==> len(ret0) == rdTotal && rdTotal == (rdFrames - 1) * 16777215 + rdLast && 0 <= rdLast && rdLast < 16777215
+//@   ensures case failed:   ret1 != nil ==> ret0 == nil
 
 // ---------------------------------------------------------------- C26 only connection errors count for the circuit breaker
 //@ property C26: AsConnError
@@ -429,3 +448,21 @@ package mysql
 //@   ensures case strLen:   typeis(value, string) && lenEncType(fieldType) && ret1 == nil ==> len(ret0) == len(data) + encLen(uint64(slen(unbox(value, string)))) + slen(unbox(value, string))
 //@   ensures case strTag:   typeis(value, string) && lenEncType(fieldType) && ret1 == nil ==> decLen(ret0[len(data)]) == encLen(uint64(slen(unbox(value, string)))) && ret0[len(data)] != 0xfb
 //@   ensures case strVal:   typeis(value, string) && lenEncType(fieldType) && ret1 == nil ==> decVal(ret0, len(data)) == uint64(slen(unbox(value, string)))
+
+// the same reassembly when the first frame goes through the pooled buffer (single short frame) or is allocated (long packet)
+//@ trusted (*github.com/XiaoMi/Gaea/util/bucketpool.Pool).Get
+//@   params recv, size
+//@   pure-call
+//@   ensures ret0 != nil && len(deref(ret0)) == size
+//@ func (*Conn).ReadEphemeralPacket
+//@   mode bv
+//@   requires c != nil
+//@   may-panic when c.currentEphemeralPolicy != 0
+//@   ghost-update at entry: rdFrames = 0, rdTotal = 0, rdLast = 0
+//@   ghost-update after call readHeaderFrom#0: rdFrames = rdFrames + ite(ret1 == nil, 1, 0), rdTotal = rdTotal + ite(ret1 == nil, ret0, 0), rdLast = ret0
+//@   ghost-update after call readOnePacket#0: rdFrames = rdFrames + ite(ret1 == nil, 1, 0), rdTotal = rdTotal + ite(ret1 == nil, len(ret0), 0), rdLast = len(ret0)
+//@   loop 0 invariant (data == nil || fresh(data)) && 1 <= rdFrames && rdFrames <= 1<<30 && len(data) == rdTotal && rdTotal == rdFrames * 16777215 && c.sequence == old(c.sequence) + uint8(rdFrames)
+//@   ensures case sequence: ret1 == nil ==> c.sequence == old(c.sequence) + uint8(rdFrames) && rdFrames >= 1
+//@   ensures case short:    ret1 == nil && rdFrames == 1 ==> len(ret0) == rdTotal && rdTotal == rdLast && 0 <= rdLast && rdLast < 16777215
+//@   ensures case long:     ret1 == nil && rdFrames > 1 ==> len(ret0) == rdTotal && rdTotal == (rdFrames - 1) * 16777215 + rdLast && 0 <= rdLast && rdLast < 16777215
+//@   ensures case failed:   ret1 != nil ==> ret0 == nil
